@@ -1343,6 +1343,7 @@ def link_matrix_part(ck, rng, stats, d_inc, d_exc, thorough):
                          {"kind": "linkmatrix-dirlink-target", "tree": children, "root": root, "link": link, "link_text": os.readlink(link), "cwd": runs[i][0], "targets": [runs[i][1]],
                           "other_cwd": runs[ref][0], "other_targets": [runs[ref][1]], "include": ["**/*.py"], "exclude": [], "recursive": True}, independent=True)
     # ---- the command itself: files of the report, summary.total_files and exit status over working directories x spellings -----------
+    ncli = 0
     for ti, (root, children, elsewhere, ldirs) in enumerate(trees):
         deepest = ldirs[-1]
         ldir = os.path.join(root, *deepest)
@@ -1385,7 +1386,8 @@ def link_matrix_part(ck, rng, stats, d_inc, d_exc, thorough):
             differ = [i for i, o in enumerate(outs) if o != outs[ref]]
             if differ:
                 nviol += 1
-                if nviol <= 5:
+                ncli += 1
+                if ncli <= 2:
                     i = differ[0]
                     fa, fb = set(outs[ref][2] or []), set(outs[i][2] or [])
                     ck.violation("pyscn analyze on a tree with symbolic links depends on the working directory / the spelling of the target: `cd %s && pyscn analyze %s` gives exit %s, "
